@@ -1,6 +1,7 @@
 import AdfObdd.ServerProofs
 import AdfObdd.ServerCred
 import AdfObdd.ServerNonint
+import AdfObdd.ServerMention
 /-! # C17 — the web service isolates users and protects credentials
 
     Theorems about the executable handler model `ServerM` (AdfObdd/ServerModel.lean), which the
@@ -152,6 +153,136 @@ theorem isolation_commands (v : T) : ∀ (sched : List Nat) (db : Db T H A R) (t
             · exact h th' h'
             · subst h'
               exact ⟨jar, U, names, hU, hn, hk _ (exec_rok db c)⟩
+
+/-! ## 2b. acting for `v` versus mentioning `v`'s name (review C17, kind 3)
+
+`touches` lumps together two different things: an event that ACTS for `v` (a request whose identity
+is `v`; a background event of a task `v` started) and a request of somebody else whose payload
+merely carries `v`'s account name (`register v …`, `login v …`, `update v …`, or the unused random
+name proposal of an authenticated `add`). `isolation` above excludes both. The theorems of this
+section allow the second kind: only events that act for `v` are excluded (`QuietA`). The price is
+the hypothesis that the account `v` exists — for a name nobody holds "`v`'s credentials" is
+meaningless, and `register v` legitimately creates it. -/
+
+omit [DecidableEq T] in
+/-- for requests, `touches` is exactly "acts for `v` or mentions `v`" -/
+theorem touches_split (v : T) (st : State T H A R) (rq : Request T) :
+    touches v st (.req rq) ↔ actsFor v st (.req rq) ∨ mentions v (.req rq) := Iff.rfl
+
+omit [DecidableEq T] in
+theorem state_ext {s t : State T H A R} (h1 : s.db = t.db) (h2 : s.sess = t.sess) : s = t := by
+  cases s; cases t; simp_all
+
+/-- **mentions-only requests are harmless.** `v` has an account; a request from a jar whose
+identity is not `v` names `v`:
+* `register v …`: the whole server state (database and every session) is unchanged, and with
+  non-empty fields the answer to the OTHER user is the documented `409 name taken`;
+* `update v …` (rename to `v`): the same — state unchanged, `409 name taken` for a logged-in jar;
+* `login v p`: the database is unchanged; unless the answer is 200 — which requires `p` to verify
+  against `v`'s stored credential, i.e. the requester knows `v`'s password and thereby IS `v` — the
+  whole state is unchanged (a failed login attempt as `v` has no effect at all).
+Since the state is unchanged, every later response to `v` (and to anybody) is what it would have
+been without the request. -/
+theorem mentions_only_harmless (E : Env T H A R) (st : State T H A R) (jar : Nat) (v p : T) (salt : Nat)
+    (hv : hasAccount v st.db) (hU : st.sess jar ≠ some v) :
+    ((step E st ⟨jar, .register v p salt⟩).1 = st ∧
+      (v ≠ E.emp → p ≠ E.emp → (step E st ⟨jar, .register v p salt⟩).2 = ⟨409, .keep, .msg .nameTaken⟩)) ∧
+    ((step E st ⟨jar, .update v p salt⟩).1 = st ∧
+      (v ≠ E.emp → p ≠ E.emp → st.sess jar ≠ none →
+        (step E st ⟨jar, .update v p salt⟩).2 = ⟨409, .keep, .msg .nameTaken⟩)) ∧
+    ((step E st ⟨jar, .login v p⟩).1.db = st.db ∧
+      ((step E st ⟨jar, .login v p⟩).2.status ≠ 200 → (step E st ⟨jar, .login v p⟩).1 = st) ∧
+      ((step E st ⟨jar, .login v p⟩).2.status = 200 →
+        ∃ x h, st.db.users.find? (isUser v) = some x ∧ x.password = some h ∧ E.verify h p = true)) := by
+  have r := register_taken E st jar v p salt hv
+  have u := update_taken E st jar v p salt hv hU
+  have l := login_harmless E st jar v p
+  exact ⟨⟨state_ext r.1 r.2.1, r.2.2⟩, ⟨state_ext u.1 u.2.1, u.2.2⟩,
+    ⟨l.1, fun h => state_ext l.1 (l.2.1 h), l.2.2⟩⟩
+
+/-- **any request that does not act for `v`** — mentioning `v` or not — leaves `v`'s user record
+(credential), `v`'s problems and `v`'s running entries as they are, and `v` still exists -/
+theorem request_not_acting_untouched (E : Env T H A R) (st : State T H A R) (rq : Request T) (v : T)
+    (hv : hasAccount v st.db) (hU : actor (st.sess rq.jar) rq.req ≠ some v) :
+    ownedBy v (step E st rq).1.db = ownedBy v st.db ∧
+    (step E st rq).1.db.users.find? (isUser v) = st.db.users.find? (isUser v) ∧
+    (step E st rq).1.db.running.filter (fun i => decide (i.username = v)) =
+      st.db.running.filter (fun i => decide (i.username = v)) ∧
+    hasAccount v (step E st rq).1.db ∧
+    (∀ k, k ≠ rq.jar → (step E st rq).1.sess k = st.sess k) := by
+  have h := request_not_acting_view E st rq v hv hU
+  refine ⟨h.problems, h.find, h.running, h.hasAccount hv, ?_⟩
+  intro k hk
+  simp only [step, stepT, if_neg hk]
+
+/-- **isolation, mentions allowed.** Under every interleaving of requests and background-task
+events: as long as no event ACTS for the existing account `v` — other users may try to register
+`v`'s name, try passwords on it, try to rename themselves to it — the problems of `v`, its user
+record with the stored credential, and its running entries are exactly what they were -/
+theorem isolation_mentions_allowed (E : Env T H A R) (v : T) (es : List (Event T)) (st : State T H A R)
+    (hv : hasAccount v st.db) (hq : QuietA E v st es) :
+    ownedBy v (runAll E st es).1.db = ownedBy v st.db ∧
+    (runAll E st es).1.db.users.find? (isUser v) = st.db.users.find? (isUser v) ∧
+    (runAll E st es).1.db.running.filter (fun i => decide (i.username = v)) =
+      st.db.running.filter (fun i => decide (i.username = v)) ∧
+    hasAccount v (runAll E st es).1.db := by
+  have h := isolation_view E v es st hv hq
+  exact ⟨h.problems, h.find, h.running, h.hasAccount hv⟩
+
+/-- **the permitted difference, made explicit.** An event that leaves the server state as it is —
+by `mentions_only_harmless`: a `register v …` or `update v …` of somebody else against the existing
+account `v` (the `409 name taken` conflict), or a failed `login v …` — can be removed from ANY
+history without changing what any OTHER cookie jar observes, nor the final state. This is the case
+that the hypothesis of `noninterference_partial` excludes (first item of its list): the only
+observable effect of a name conflict is the response to the jar that caused it. -/
+theorem noop_event_unobservable (E : Env T H A R) (st : State T H A R) (e : Event T) (es : List (Event T))
+    (h : (stepEv E st e).1 = st) :
+    (runAll E st (e :: es)).1 = (runAll E st es).1 ∧
+    ∀ j, j ≠ e.jar → obs j (runAll E st (e :: es)).2 = obs j (runAll E st es).2 := by
+  have h1 : (runAll E st (e :: es)).1 = (runAll E (stepEv E st e).1 es).1 := rfl
+  have h2 : (runAll E st (e :: es)).2 =
+      (match (stepEv E st e).2 with | some r => [(e.jar, r)] | none => []) ++ (runAll E (stepEv E st e).1 es).2 := rfl
+  rw [h1, h2, h]
+  refine ⟨rfl, fun j hj => ?_⟩
+  rw [obs_append]
+  cases (stepEv E st e).2 with
+  | none => simp [obs]
+  | some r => simp [obs, Ne.symm hj]
+
+/-! ### salts
+
+What the model says about "salted": the salt is an INPUT of the `register` / `update` request
+(`Req.register u p salt`; the code draws it with `SaltString::generate(&mut OsRng)` per call), so
+every theorem about histories quantifies over all choices of all salts, equal or different, and a
+stored credential is the hash under the salt of the very write that stored it. Assumed of argon2
+(`Env.hash`, `Env.verify`), and only where stated: it is a function of salt and password;
+`verify (hash s p) p' ↔ p = p'` (in `login_iff`); `hash s p ≠ p` (in `stored_not_plaintext`);
+injectivity in the salt (in `same_password_distinct_salts` below). Nothing is assumed or proved
+about the salts' randomness or the hash's one-wayness. -/
+
+/-- a successful `register` appends the record `(u, hash salt p)` for the salt of THAT request; a
+successful `update` replaces the session's record by `(u', hash salt p')` for the salt of THAT
+request -/
+theorem stored_uses_request_salt (E : Env T H A R) (st : State T H A R) (jar : Nat) (u p : T) (salt : Nat) :
+    ((step E st ⟨jar, .register u p salt⟩).2.status = 200 →
+      (step E st ⟨jar, .register u p salt⟩).1.db.users = st.db.users ++ [⟨u, some (E.hash salt p)⟩]) ∧
+    ((step E st ⟨jar, .update u p salt⟩).2.status = 200 → ∃ u0, st.sess jar = some u0 ∧
+      (step E st ⟨jar, .update u p salt⟩).1.db.users =
+        updFirst (isUser u0) (fun _ => ⟨u, some (E.hash salt p)⟩) st.db.users) :=
+  ⟨register_stores E st jar u p salt, update_stores E st jar u p salt⟩
+
+/-- two accounts registered with the SAME password under different salts store different
+credentials, for a hash that is injective in the salt -/
+theorem same_password_distinct_salts (E : Env T H A R) (hinj : ∀ s s' p, E.hash s p = E.hash s' p → s = s')
+    (st : State T H A R) (j1 j2 : Nat) (u1 u2 p : T) (s1 s2 : Nat) (hs : s1 ≠ s2)
+    (h1 : (step E st ⟨j1, .register u1 p s1⟩).2.status = 200)
+    (h2 : (step E (step E st ⟨j1, .register u1 p s1⟩).1 ⟨j2, .register u2 p s2⟩).2.status = 200) :
+    (step E (step E st ⟨j1, .register u1 p s1⟩).1 ⟨j2, .register u2 p s2⟩).1.db.users =
+      st.db.users ++ [⟨u1, some (E.hash s1 p)⟩, ⟨u2, some (E.hash s2 p)⟩] ∧
+    E.hash s1 p ≠ E.hash s2 p := by
+  refine ⟨?_, fun e => hs (hinj _ _ _ e)⟩
+  rw [register_stores E _ j2 u2 p s2 h2, register_stores E st j1 u1 p s1 h1]
+  simp
 
 /-! ## 3. what a response can contain -/
 
@@ -337,7 +468,9 @@ This is the property's "no account name is re-used while sessions/tasks of its p
 exist".  Partial w.r.t. "apart from account names being unique, each user's observable history is
 what it would be if that user were alone":
 * name-uniqueness conflicts (somebody trying to take a name that is in use: the permitted `409`
-  difference) are excluded by the hypothesis instead of being treated as permitted differences;
+  difference) are excluded by the hypothesis instead of being treated as permitted differences
+  (treated separately: `mentions_only_harmless` + `noop_event_unobservable` — such an event changes
+  nothing but the response to its own jar; the two results are not yet merged into one statement);
 * a user is a cookie jar here; two jars logging into the same account are one user of the property
   and are excluded by the hypothesis as well;
 * requests are atomic (isolation at command granularity is `isolation_commands`).
@@ -406,6 +539,30 @@ example : ∀ e ∈ hist1, (e.jar = 0 → e.namesIn (fun x => decide (x = 1 ∨ 
   simp only [hist1, List.mem_cons, List.not_mem_nil, or_false] at he
   rcases he with h | h | h | h | h | h | h | h <;> subst h <;> simp [Event.jar, Event.namesIn, reqNames]
 
+/-- bob (jar 1) tries to take alice's name, tries a password on her account, registers as `2`,
+logs in and tries to rename himself to `alice` — none of these events acts for alice -/
+def histMention : List (Event Nat) :=
+  [.req ⟨1, .register 1 9 3⟩, .req ⟨1, .login 1 8⟩, .req ⟨1, .register 2 9 3⟩, .req ⟨1, .login 2 9⟩,
+   .req ⟨1, .update 1 9 4⟩]
+
+-- non-vacuity of `isolation_mentions_allowed`: alice exists, no event of `histMention` acts for her
+-- (while `Quiet` fails at once: the first event mentions her) …
+example : hasAccount 1 (runAll E0 {} (hist1.take 5)).1.db ∧
+    QuietA E0 1 (runAll E0 {} (hist1.take 5)).1 histMention ∧
+    ¬ Quiet E0 1 (runAll E0 {} (hist1.take 5)).1 histMention := by
+  refine ⟨by unfold hasAccount; decide, ?_, ?_⟩
+  · refine ⟨?_, ?_, ?_, ?_, ?_, trivial⟩ <;> simp [actsFor, actor] <;> decide
+  · intro h
+    exact h.1 (Or.inr (by simp [reqNames]))
+-- … bob gets the documented answers (409 name taken, 400 wrong password, …, 409 name taken) …
+example : (runAll E0 (runAll E0 {} (hist1.take 5)).1 histMention).2.map (·.2.status) = [409, 400, 200, 200, 409] := by
+  decide
+-- … and alice's record and problem are what they were
+example : (runAll E0 (runAll E0 {} (hist1.take 5)).1 histMention).1.db.users.find? (isUser 1) = some ⟨1, some (0, 7)⟩ ∧
+    ownedBy 1 (runAll E0 (runAll E0 {} (hist1.take 5)).1 histMention).1.db =
+      ownedBy 1 (runAll E0 {} (hist1.take 5)).1.db := by
+  constructor <;> decide
+
 /-- legitimate re-use: alice (jar 0) deletes her account after her task is done; only then does
 somebody else (jar 1) register `alice`.  The discipline holds for both jars although the name moves. -/
 def histReuse : List (Event Nat) :=
@@ -467,3 +624,10 @@ example : (obs 1 (runAll E0 {} histD9).2).getLast?.map (·.body) =
     some (.problem ⟨5, 4, .naive, .some 4, { ground := .some 9 }, []⟩) := by decide
 
 end C17
+
+#print axioms C17.mentions_only_harmless
+#print axioms C17.request_not_acting_untouched
+#print axioms C17.isolation_mentions_allowed
+#print axioms C17.noop_event_unobservable
+#print axioms C17.stored_uses_request_salt
+#print axioms C17.same_password_distinct_salts
